@@ -71,7 +71,7 @@ Definition fmt_spec (sp : bool * nat * bool * nat) (neg : bool) (m e : Z) : list
 Definition fmt_float (code : Z) (neg : bool) (m e : Z) : option (list Z) :=
   match float_spec code with Some sp => Some (fmt_spec sp neg m e) | None => None end.
 Definition fmt_int (code : Z) (n : Z) : option (list Z) :=
-  match code with 2 => Some (int_text n) | 6 => Some (pad 10 (int_text n)) | _ => None end.
+  if code =? 2 then Some (int_text n) else if code =? 6 then Some (pad 10 (int_text n)) else None.
 
 (* ---- reading a printed number back: sign, the integer made of all digits, the number of digits after the point, and the
         decimal exponent (0 when absent).  The value read is  (-1)^neg * all * 10^(exp - nfrac). *)
